@@ -113,15 +113,19 @@ theorem step_static {P : Progs} {s s' : State} {t : Tid} {th : Thread} {i : Inst
 
 theorem step_routes {P : Progs} {s s' : State} {t : Tid} {th : Thread} {i : Instr} {rest : List Instr}
     (ht : s.threads t = some th) (hc : th.code = i :: rest) (hs : step P s (.tau t) = some s') :
-    (s'.routes = s.routes ∧ s'.svcRoutes = s.svcRoutes ∧ (i = .sAdd ∨ i = .sDel ∨ i = .sRemove → th.skip = true)) ∨
+    (s'.routes = s.routes ∧ s'.svcRoutes = s.svcRoutes ∧ s'.waiting = s.waiting ∧
+      (i = .sAdd ∨ i = .sDel ∨ i = .sRemove → th.skip = true)) ∨
     (i = .sAdd ∧ th.skip = false ∧ s'.svcRoutes = s.svcRoutes ∧
       s'.routes = (svcAdd P.storeSame ⟨th.w, th.desc⟩ th.desc.svcs s.routes []).1 ∧
+      s'.waiting = svcClaim ⟨th.w, th.desc⟩ s.routes th.desc.svcs s.waiting ∧
       ∃ th', s'.threads t = some th' ∧ th'.present = (svcAdd P.storeSame ⟨th.w, th.desc⟩ th.desc.svcs s.routes []).2) ∨
     (i = .sDel ∧ th.skip = false ∧
-      s'.routes = svcDelete ((s.svcRoutes th.desc.name).filter (fun k => !th.present.contains k)) s.routes ∧
-      s'.svcRoutes = upd s.svcRoutes th.desc.name th.present) ∨
-    (i = .sRemove ∧ th.skip = false ∧ ∃ wt, s.watchers th.w = some wt ∧
-      s'.routes = svcDelete (s.svcRoutes wt.name) s.routes ∧ s'.svcRoutes = upd s.svcRoutes wt.name []) := by
+      ∃ q, q = relLoop ((s.svcRoutes th.desc.name).filter (fun k => !th.present.contains k))
+          ⟨s.routes, fun k => if th.desc.svcs.contains k then s.waiting k else dropClaim (s.waiting k) th.desc.name, s.svcRoutes⟩ ∧
+        s'.routes = q.r ∧ s'.waiting = q.w ∧ s'.svcRoutes = upd q.v th.desc.name (dedup th.present)) ∨
+    (i = .sRemove ∧ th.skip = false ∧ ∃ wt q, s.watchers th.w = some wt ∧
+      q = relLoop (s.svcRoutes wt.name) ⟨s.routes, s.waiting, s.svcRoutes⟩ ∧
+      s'.routes = q.r ∧ s'.svcRoutes = upd q.v wt.name [] ∧ s'.waiting = fun k => dropClaim (q.w k) wt.name) := by
   obtain ⟨op, code, skip, a, snap, cr, pres, res⟩ := th
   simp only at hc; subst hc
   simp only [step, ht] at hs
@@ -131,16 +135,15 @@ theorem step_routes {P : Progs} {s s' : State} {t : Tid} {th : Thread} {i : Inst
     cases i <;> simp only at hs <;> (repeat' split at hs) <;>
       first
       | (cases hs; done)
-      | (cases hs; left; exact ⟨rfl, rfl, by simp⟩)
-      | (cases hs; right; left; exact ⟨rfl, rfl, rfl, rfl, _, upd_same _ _ _, rfl⟩)
-      | (cases hs; right; right; left; exact ⟨rfl, rfl, rfl, rfl⟩)
-      | (cases hs; right; right; right; exact ⟨rfl, rfl, _, ‹_›, rfl, rfl⟩)
+      | (cases hs; left; exact ⟨rfl, rfl, rfl, by simp⟩)
+      | (cases hs; right; left; exact ⟨rfl, rfl, rfl, rfl, rfl, _, upd_same _ _ _, rfl⟩)
+      | (cases hs; right; right; left; exact ⟨rfl, rfl, _, rfl, rfl, rfl, rfl⟩)
+      | (cases hs; right; right; right; exact ⟨rfl, rfl, _, _, ‹_›, rfl, rfl, rfl, rfl⟩)
   · simp only [if_true] at hs
     cases i <;> simp only at hs <;> (repeat' split at hs) <;>
       first
       | (cases hs; done)
-      | (cases hs; left; exact ⟨rfl, rfl, by simp⟩)
-
+      | (cases hs; left; exact ⟨rfl, rfl, rfl, by simp⟩)
 
 theorem step_wset {P : Progs} {s s' : State} {t : Tid} {th : Thread} {i : Instr} {rest : List Instr}
     (ht : s.threads t = some th) (hc : th.code = i :: rest) (hs : step P s (.tau t) = some s') :
@@ -647,7 +650,7 @@ theorem wset_step {P : Progs} {s s' : State} {t : Tid} {th : Thread} {i : Instr}
       · simp only [A.step] at ha; split at ha
         · rename_i hx; simp only [Bool.and_eq_true, Bool.not_eq_true'] at hx
           have := (Option.some.inj ha).symm
-          exact ⟨hx.1, hx.2, by rw [this]⟩
+          exact ⟨hx.1.1, hx.1.2, by rw [this]⟩
         · cases ha
     obtain ⟨hcl, hnsr, hsr'⟩ := ha
     have hr := removed_add ht hth hop hsr'
@@ -745,22 +748,352 @@ theorem wset_step {P : Progs} {s s' : State} {t : Tid} {th : Thread} {i : Instr}
     · exact absurd ⟨rfl, hsk⟩ hSR
 
 
+
+/-! ### claims, release (fix D31) -/
+
+abbrev DistinctNames (l : List Entry) : Prop := l.Pairwise (fun a b => a.desc.name ≠ b.desc.name)
+
+theorem dropClaim_sublist (l : List Entry) (n : Name) : (dropClaim l n).Sublist l := by
+  induction l with
+  | nil => exact List.Sublist.slnil
+  | cons c cs ih =>
+    simp only [dropClaim]
+    split
+    · exact List.sublist_cons_self c cs
+    · exact ih.cons₂ c
+
+theorem mem_dropClaim {c : Entry} {l : List Entry} {n : Name} (h : c ∈ dropClaim l n) : c ∈ l :=
+  (dropClaim_sublist l n).subset h
+
+theorem dropClaim_ne {l : List Entry} {n : Name} (hd : DistinctNames l) {c : Entry} (h : c ∈ dropClaim l n) :
+    c.desc.name ≠ n := by
+  induction l with
+  | nil => cases h
+  | cons x xs ih =>
+    simp only [dropClaim] at h
+    rw [DistinctNames, List.pairwise_cons] at hd
+    split at h
+    · rename_i hx
+      intro e; exact hd.1 c h (hx.trans e.symm)
+    · rename_i hx
+      rcases List.mem_cons.1 h with rfl | h
+      · exact hx
+      · exact ih hd.2 h
+
+theorem mem_recordClaim {c e : Entry} {l : List Entry} (h : c ∈ recordClaim l e) : c = e ∨ c ∈ l := by
+  induction l with
+  | nil => left; simpa [recordClaim] using h
+  | cons x xs ih =>
+    simp only [recordClaim] at h
+    split at h
+    · rcases List.mem_cons.1 h with h | h
+      · left; exact h
+      · right; exact List.mem_cons_of_mem _ h
+    · rcases List.mem_cons.1 h with h | h
+      · right; rw [h]; exact List.mem_cons_self
+      · rcases ih h with h | h
+        · left; exact h
+        · right; exact List.mem_cons_of_mem _ h
+
+theorem self_mem_recordClaim (l : List Entry) (e : Entry) : e ∈ recordClaim l e := by
+  induction l with
+  | nil => simp [recordClaim]
+  | cons x xs ih =>
+    simp only [recordClaim]
+    split
+    · exact List.mem_cons_self
+    · exact List.mem_cons_of_mem _ ih
+
+theorem recordClaim_distinct {l : List Entry} (e : Entry) (hd : DistinctNames l) : DistinctNames (recordClaim l e) := by
+  induction l with
+  | nil => simp [recordClaim, DistinctNames]
+  | cons x xs ih =>
+    rw [DistinctNames, List.pairwise_cons] at hd
+    simp only [recordClaim]
+    split
+    · rename_i hx
+      rw [DistinctNames, List.pairwise_cons]
+      exact ⟨fun b hb => by rw [← hx]; exact hd.1 b hb, hd.2⟩
+    · rename_i hx
+      rw [DistinctNames, List.pairwise_cons]
+      refine ⟨?_, ih hd.2⟩
+      intro b hb
+      rcases mem_recordClaim hb with rfl | hb
+      · exact hx
+      · exact hd.1 b hb
+
+theorem svcClaim_cons_none {e : Entry} {r : Svc → Option Entry} {y : Svc} {ys : List Svc} {w : Svc → List Entry}
+    (h : r y = none) : svcClaim e r (y :: ys) w = svcClaim e r ys w := by simp [svcClaim, h]
+
+theorem svcClaim_cons_same {e old : Entry} {r : Svc → Option Entry} {y : Svc} {ys : List Svc} {w : Svc → List Entry}
+    (h : r y = some old) (hn : old.desc.name = e.desc.name) : svcClaim e r (y :: ys) w = svcClaim e r ys w := by
+  simp [svcClaim, h, hn]
+
+theorem svcClaim_cons_other {e old : Entry} {r : Svc → Option Entry} {y : Svc} {ys : List Svc} {w : Svc → List Entry}
+    (h : r y = some old) (hn : old.desc.name ≠ e.desc.name) :
+    svcClaim e r (y :: ys) w = svcClaim e r ys (upd w y (recordClaim (w y) e)) := by
+  simp [svcClaim, h, hn]
+
+theorem svcClaim_mem {e : Entry} {r : Svc → Option Entry} {l : List Svc} {w : Svc → List Entry} {k : Svc} {c : Entry}
+    (h : c ∈ svcClaim e r l w k) :
+    c ∈ w k ∨ (c = e ∧ k ∈ l ∧ ∃ old, r k = some old ∧ old.desc.name ≠ e.desc.name) := by
+  induction l generalizing w with
+  | nil => left; simpa [svcClaim] using h
+  | cons y ys ih =>
+    have lift : (c ∈ w k ∨ (c = e ∧ k ∈ ys ∧ ∃ old, r k = some old ∧ old.desc.name ≠ e.desc.name)) →
+        c ∈ w k ∨ (c = e ∧ k ∈ y :: ys ∧ ∃ old, r k = some old ∧ old.desc.name ≠ e.desc.name) := by
+      rintro (h1 | ⟨h1, h2, h3⟩)
+      · left; exact h1
+      · right; exact ⟨h1, List.mem_cons_of_mem _ h2, h3⟩
+    cases ho : r y with
+    | none => rw [svcClaim_cons_none ho] at h; exact lift (ih h)
+    | some old =>
+      by_cases hne : old.desc.name = e.desc.name
+      · rw [svcClaim_cons_same ho hne] at h; exact lift (ih h)
+      · rw [svcClaim_cons_other ho hne] at h
+        rcases ih h with h1 | ⟨h1, h2, h3⟩
+        · by_cases hk : k = y
+          · subst hk
+            simp only [upd_same] at h1
+            rcases mem_recordClaim h1 with h4 | h4
+            · right; exact ⟨h4, List.mem_cons_self, old, ho, hne⟩
+            · left; exact h4
+          · left; simpa [upd, hk] using h1
+        · right; exact ⟨h1, List.mem_cons_of_mem _ h2, h3⟩
+
+theorem svcClaim_distinct {e : Entry} {r : Svc → Option Entry} (l : List Svc) {w : Svc → List Entry}
+    (hd : ∀ k, DistinctNames (w k)) : ∀ k, DistinctNames (svcClaim e r l w k) := by
+  induction l generalizing w with
+  | nil => simpa [svcClaim] using hd
+  | cons y ys ih =>
+    cases ho : r y with
+    | none => rw [svcClaim_cons_none ho]; exact ih hd
+    | some old =>
+      by_cases hne : old.desc.name = e.desc.name
+      · rw [svcClaim_cons_same ho hne]; exact ih hd
+      · rw [svcClaim_cons_other ho hne]
+        apply ih
+        intro k
+        by_cases hk : k = y
+        · subst hk; simp only [upd_same]; exact recordClaim_distinct e (hd k)
+        · simpa [upd, hk] using hd k
+
+/-- every claim of another target is kept by the add phase -/
+theorem svcClaim_keeps {e : Entry} {r : Svc → Option Entry} (l : List Svc) {w : Svc → List Entry} {k : Svc} {c : Entry}
+    (h : c ∈ w k) (hn : c.desc.name ≠ e.desc.name) : c ∈ svcClaim e r l w k := by
+  have keep : ∀ (l : List Entry), c ∈ l → c ∈ recordClaim l e := by
+    intro l
+    induction l with
+    | nil => intro h; cases h
+    | cons x xs ih =>
+      intro h
+      simp only [recordClaim]
+      split
+      · rename_i hx
+        rcases List.mem_cons.1 h with rfl | h
+        · exact absurd hx hn
+        · exact List.mem_cons_of_mem _ h
+      · rcases List.mem_cons.1 h with rfl | h
+        · exact List.mem_cons_self
+        · exact List.mem_cons_of_mem _ (ih h)
+  induction l generalizing w with
+  | nil => simpa [svcClaim] using h
+  | cons y ys ih =>
+    cases ho : r y with
+    | none => rw [svcClaim_cons_none ho]; exact ih h
+    | some old =>
+      by_cases hne : old.desc.name = e.desc.name
+      · rw [svcClaim_cons_same ho hne]; exact ih h
+      · rw [svcClaim_cons_other ho hne]
+        apply ih
+        by_cases hk : k = y
+        · subst hk; simp only [upd_same]; exact keep _ h
+        · simpa [upd, hk] using h
+
+theorem release_r_self (q : RelSt) (k : Svc) : (release q k).r k = (q.w k).head? := by
+  unfold release; split <;> simp_all
+
+theorem release_w_self (q : RelSt) (k : Svc) : (release q k).w k = (q.w k).tail := by
+  unfold release; split <;> simp_all
+
+theorem release_other (q : RelSt) (k x : Svc) (h : x ≠ k) :
+    (release q k).r x = q.r x ∧ (release q k).w x = q.w x := by
+  unfold release; split <;> simp [upd, h]
+
+theorem relLoop_out {D : List Svc} {q : RelSt} {k : Svc} (hk : k ∉ D) :
+    (relLoop D q).r k = q.r k ∧ (relLoop D q).w k = q.w k := by
+  induction D generalizing q with
+  | nil => exact ⟨rfl, rfl⟩
+  | cons x xs ih =>
+    simp only [relLoop]
+    have h1 : k ≠ x := fun e => hk (e ▸ List.mem_cons_self)
+    have h2 : k ∉ xs := fun e => hk (List.mem_cons_of_mem _ e)
+    obtain ⟨a, b⟩ := ih (q := release q x) h2
+    obtain ⟨c, d⟩ := release_other q x k h1
+    exact ⟨a.trans c, b.trans d⟩
+
+theorem relLoop_in {D : List Svc} {q : RelSt} {k : Svc} (hn : D.Nodup) (hk : k ∈ D) :
+    (relLoop D q).r k = (q.w k).head? ∧ (relLoop D q).w k = (q.w k).tail := by
+  induction D generalizing q with
+  | nil => cases hk
+  | cons x xs ih =>
+    simp only [relLoop]
+    rw [List.nodup_cons] at hn
+    rcases List.mem_cons.1 hk with rfl | hk
+    · obtain ⟨a, b⟩ := relLoop_out (q := release q k) hn.1
+      exact ⟨a.trans (release_r_self q k), b.trans (release_w_self q k)⟩
+    · have h1 : k ≠ x := fun e => hn.1 (e ▸ hk)
+      obtain ⟨a, b⟩ := ih (q := release q x) hn.2 hk
+      obtain ⟨c, d⟩ := release_other q x k h1
+      rw [c] at *; rw [d] at a b
+      exact ⟨a, b⟩
+
+theorem relLoop_v_mem {D : List Svc} {q : RelSt} {x : Svc} {m : Name} (hn : D.Nodup) :
+    x ∈ (relLoop D q).v m ↔ x ∈ q.v m ∨ (x ∈ D ∧ ∃ c, (q.w x).head? = some c ∧ c.desc.name = m) := by
+  induction D generalizing q with
+  | nil => simp [relLoop]
+  | cons y ys ih =>
+    simp only [relLoop]
+    rw [List.nodup_cons] at hn
+    rw [ih hn.2]
+    have hv : x ∈ (release q y).v m ↔ x ∈ q.v m ∨ (x = y ∧ ∃ c, (q.w y).head? = some c ∧ c.desc.name = m) := by
+      unfold release
+      split
+      · rename_i hw; simp [hw]
+      · rename_i c rest hw
+        by_cases hm : m = c.desc.name
+        · subst hm; simp [hw, upd_same]
+        · simp only [upd_other _ _ _ _ hm, hw, List.head?_cons, Option.some.injEq]
+          constructor
+          · intro h; left; exact h
+          · rintro (h | ⟨_, c', h1, h2⟩)
+            · exact h
+            · subst h1; exact absurd h2.symm hm
+    constructor
+    · rintro (h | ⟨hx, c, h1, h2⟩)
+      · rcases hv.1 h with h | ⟨rfl, h⟩
+        · left; exact h
+        · right; exact ⟨List.mem_cons_self, h⟩
+      · have hxy : x ≠ y := fun e => hn.1 (e ▸ hx)
+        rw [(release_other q y x hxy).2] at h1
+        right; exact ⟨List.mem_cons_of_mem _ hx, c, h1, h2⟩
+    · rintro (h | ⟨hx, c, h1, h2⟩)
+      · left; exact hv.2 (Or.inl h)
+      · rcases List.mem_cons.1 hx with rfl | hx
+        · left; exact hv.2 (Or.inr ⟨rfl, c, h1, h2⟩)
+        · have hxy : x ≠ y := fun e => hn.1 (e ▸ hx)
+          right; refine ⟨hx, c, ?_, h2⟩
+          rw [(release_other q y x hxy).2]; exact h1
+
+theorem relLoop_nodup {D : List Svc} {q : RelSt} {n : Name} (H1 : ∀ m, (q.v m).Nodup)
+    (H2 : ∀ x ∈ D, ∀ m, m ≠ n → x ∉ q.v m) (H3 : D.Nodup) (H4 : ∀ x ∈ D, ∀ c ∈ q.w x, c.desc.name ≠ n) :
+    ∀ m, ((relLoop D q).v m).Nodup := by
+  induction D generalizing q with
+  | nil => simpa [relLoop] using H1
+  | cons y ys ih =>
+    simp only [relLoop]
+    rw [List.nodup_cons] at H3
+    apply ih
+    · intro m
+      unfold release
+      split
+      · exact H1 m
+      · rename_i c rest hw
+        by_cases hm : m = c.desc.name
+        · subst hm
+          simp only [upd_same]
+          have hc : c.desc.name ≠ n := H4 y List.mem_cons_self c (by rw [hw]; exact List.mem_cons_self)
+          have : y ∉ q.v c.desc.name := H2 y List.mem_cons_self _ hc
+          exact List.nodup_append.2 ⟨H1 _, by simp, by
+            intro a ha b hb; simp at hb; subst hb; intro e; subst e; exact this ha⟩
+        · simp only [upd_other _ _ _ _ hm]; exact H1 m
+    · intro x hx m hm
+      have hxy : x ≠ y := fun e => H3.1 (e ▸ hx)
+      unfold release
+      split
+      · exact H2 x (List.mem_cons_of_mem _ hx) m hm
+      · rename_i c rest hw
+        by_cases hm2 : m = c.desc.name
+        · subst hm2
+          simp only [upd_same, List.mem_append, List.mem_singleton, not_or]
+          exact ⟨H2 x (List.mem_cons_of_mem _ hx) _ hm, hxy⟩
+        · simp only [upd_other _ _ _ _ hm2]; exact H2 x (List.mem_cons_of_mem _ hx) m hm
+    · exact H3.2
+    · intro x hx c hc
+      have hxy : x ≠ y := fun e => H3.1 (e ▸ hx)
+      rw [(release_other q y x hxy).2] at hc
+      exact H4 x (List.mem_cons_of_mem _ hx) c hc
+
+theorem mem_dedup {l : List Svc} {x : Svc} : x ∈ dedup l ↔ x ∈ l := by
+  induction l with
+  | nil => simp [dedup]
+  | cons y ys ih =>
+    simp only [dedup, List.mem_cons, List.mem_filter, ih]
+    constructor
+    · rintro (h | ⟨h, _⟩)
+      · left; exact h
+      · right; exact h
+    · rintro (h | h)
+      · left; exact h
+      · by_cases e : x = y
+        · left; exact e
+        · right; exact ⟨h, by simpa using e⟩
+
+theorem nodup_dedup (l : List Svc) : (dedup l).Nodup := by
+  induction l with
+  | nil => simp [dedup]
+  | cons y ys ih =>
+    simp only [dedup, List.nodup_cons, List.mem_filter]
+    exact ⟨fun h => by simp at h, ih.filter _⟩
+
+
+theorem relLoop_entry {D : List Svc} {q : RelSt} (hn : D.Nodup) (k : Svc) (e : Entry)
+    (h : (relLoop D q).r k = some e ∨ e ∈ (relLoop D q).w k) : q.r k = some e ∨ e ∈ q.w k := by
+  by_cases hk : k ∈ D
+  · obtain ⟨a, b⟩ := relLoop_in (q := q) hn hk
+    rw [a, b] at h
+    right
+    rcases h with h | h
+    · exact List.mem_of_mem_head? h
+    · exact List.mem_of_mem_tail h
+  · obtain ⟨a, b⟩ := relLoop_out (q := q) hk
+    rw [a, b] at h; exact h
+
 /-! ### service map bookkeeping -/
 
-structure SvcInv (s : State) : Prop where
-  keyIn : ∀ k e, s.routes k = some e → k ∈ e.desc.svcs
+structure SvcInv (P : Progs) (s : State) : Prop where
+  keyIn : ∀ k e, (s.routes k = some e ∨ e ∈ s.waiting k) → k ∈ e.desc.svcs
+  ownN : ∀ k e, (s.routes k = some e ∨ e ∈ s.waiting k) → nameOf s e.owner = some e.desc.name
   owned : ∀ n k, k ∈ s.svcRoutes n → ∃ e, s.routes k = some e ∧ e.desc.name = n
+  cover : ∀ k e, s.routes k = some e → k ∈ s.svcRoutes e.desc.name ∨
+    ∃ t th, s.threads t = some th ∧ th.a.mid = true ∧ th.desc.name = e.desc.name ∧ k ∈ th.present
+  wother : ∀ k c, c ∈ s.waiting k → ∃ e, s.routes k = some e ∧ e.desc.name ≠ c.desc.name
+  wdist : ∀ k, DistinctNames (s.waiting k)
+  nodup : ∀ n, (s.svcRoutes n).Nodup
+  r1 : ∀ t th, s.threads t = some th → th.a.cl = true → (th.a.rr = true ∨ th.a.sr = true) →
+    ∀ k e, (s.routes k = some e ∨ e ∈ s.waiting k) → e.owner ≠ th.w
   midP : ∀ t th, s.threads t = some th → th.a.mid = true →
     ∀ k ∈ s.svcRoutes th.desc.name, k ∈ th.desc.svcs → k ∈ th.present
   midOwn : ∀ t th, s.threads t = some th → th.a.mid = true →
     ∀ k ∈ th.present, ∃ e, s.routes k = some e ∧ e.desc.name = th.desc.name
+  kind : P.svc = false → (∀ k, s.routes k = none) ∧ (∀ k, s.waiting k = [])
 
-theorem svc_init : SvcInv init := by
-  constructor <;> simp [init]
+theorem svc_init (P : Progs) : SvcInv P init := by
+  constructor <;> simp [init, DistinctNames]
 
-theorem svc_spawn {P : Progs} {s : State} {t : Tid} (op : Op) (h : SvcInv s) (hn : s.threads t = none) :
-    SvcInv (setThread s t { op := op, code := P.of op }) := by
-  refine ⟨h.keyIn, h.owned, ?_, ?_⟩
+theorem svc_spawn {P : Progs} {s : State} {t : Tid} (op : Op) (h : SvcInv P s) (hn : s.threads t = none) :
+    SvcInv P (setThread s t { op := op, code := P.of op }) := by
+  refine ⟨h.keyIn, h.ownN, h.owned, ?_, h.wother, h.wdist, h.nodup, ?_, ?_, ?_, h.kind⟩
+  · intro k e he
+    rcases h.cover k e he with x | ⟨t0, th0, h0, r⟩
+    · left; exact x
+    · right
+      have : t0 ≠ t := by intro e; subst e; rw [hn] at h0; cases h0
+      exact ⟨t0, th0, by simp [setThread, upd, this]; exact h0, r⟩
+  · intro t0 th0 h0 hc
+    rcases upd_some_cases h0 with ⟨rfl, rfl⟩ | ⟨ne, h0'⟩
+    · simp at hc
+    · exact h.r1 t0 th0 h0' hc
   · intro t0 th0 h0 hm
     rcases upd_some_cases h0 with ⟨rfl, rfl⟩ | ⟨ne, h0'⟩
     · simp at hm
@@ -770,21 +1103,113 @@ theorem svc_spawn {P : Progs} {s : State} {t : Tid} (op : Op) (h : SvcInv s) (hn
     · simp at hm
     · exact h.midOwn t0 th0 h0' hm
 
+/-- what a release loop over keys owned by `n` does to the tables -/
+theorem rel_facts {P : Progs} {s : State} (h : SvcInv P s) (n : Name) (D : List Svc) (w0 : Svc → List Entry)
+    (hw0 : ∀ k, (w0 k).Sublist (s.waiting k)) (hD : ∀ k ∈ D, k ∈ s.svcRoutes n) (hDn : D.Nodup) :
+    (∀ k e, ((relLoop D ⟨s.routes, w0, s.svcRoutes⟩).r k = some e ∨ e ∈ (relLoop D ⟨s.routes, w0, s.svcRoutes⟩).w k) →
+      (s.routes k = some e ∨ e ∈ s.waiting k)) ∧
+    (∀ k c, c ∈ (relLoop D ⟨s.routes, w0, s.svcRoutes⟩).w k →
+      ∃ e, (relLoop D ⟨s.routes, w0, s.svcRoutes⟩).r k = some e ∧ e.desc.name ≠ c.desc.name) ∧
+    (∀ k, ((relLoop D ⟨s.routes, w0, s.svcRoutes⟩).w k).Sublist (s.waiting k)) ∧
+    (∀ m k, m ≠ n → k ∈ (relLoop D ⟨s.routes, w0, s.svcRoutes⟩).v m →
+      ∃ e, (relLoop D ⟨s.routes, w0, s.svcRoutes⟩).r k = some e ∧ e.desc.name = m) ∧
+    (∀ k e, k ∈ D → (relLoop D ⟨s.routes, w0, s.svcRoutes⟩).r k = some e →
+      e.desc.name ≠ n ∧ k ∈ (relLoop D ⟨s.routes, w0, s.svcRoutes⟩).v e.desc.name) ∧
+    (∀ k, k ∉ D → (relLoop D ⟨s.routes, w0, s.svcRoutes⟩).r k = s.routes k) ∧
+    (∀ m k, k ∈ s.svcRoutes m → k ∈ (relLoop D ⟨s.routes, w0, s.svcRoutes⟩).v m) ∧
+    (∀ m, ((relLoop D ⟨s.routes, w0, s.svcRoutes⟩).v m).Nodup) := by
+  have hin := fun k (hk : k ∈ D) => relLoop_in (q := ⟨s.routes, w0, s.svcRoutes⟩) hDn hk
+  have hout := fun k (hk : k ∉ D) => relLoop_out (q := ⟨s.routes, w0, s.svcRoutes⟩) hk
+  have hvm := fun x m => relLoop_v_mem (q := ⟨s.routes, w0, s.svcRoutes⟩) (x := x) (m := m) hDn
+  -- a claim on a key of D is never by `n`
+  have notn : ∀ k ∈ D, ∀ c ∈ w0 k, c.desc.name ≠ n := by
+    intro k hk c hc
+    obtain ⟨e, h1, h2⟩ := h.wother k c ((hw0 k).subset hc)
+    obtain ⟨e', h3, h4⟩ := h.owned n k (hD k hk)
+    rw [h1] at h3; cases h3
+    intro x; exact h2 (h4.trans x.symm)
+  have distW0 : ∀ k, DistinctNames (w0 k) := fun k => (h.wdist k).sublist (hw0 k)
+  refine ⟨?_, ?_, ?_, ?_, ?_, ?_, ?_, ?_⟩
+  · intro k e he
+    rcases relLoop_entry hDn k e he with x | x
+    · left; exact x
+    · right; exact (hw0 k).subset x
+  · intro k c hc
+    by_cases hk : k ∈ D
+    · obtain ⟨a, b⟩ := hin k hk
+      rw [b] at hc; rw [a]
+      cases hw : w0 k with
+      | nil => simp only [hw] at hc; cases hc
+      | cons x xs =>
+        simp only [hw] at hc ⊢
+        refine ⟨x, rfl, ?_⟩
+        have := distW0 k
+        rw [hw, DistinctNames, List.pairwise_cons] at this
+        exact this.1 c hc
+    · obtain ⟨a, b⟩ := hout k hk
+      rw [b] at hc; rw [a]
+      exact h.wother k c ((hw0 k).subset hc)
+  · intro k
+    by_cases hk : k ∈ D
+    · rw [(hin k hk).2]; exact (List.tail_sublist _).trans (hw0 k)
+    · rw [(hout k hk).2]; exact hw0 k
+  · intro m k hm hk
+    rcases (hvm k m).1 hk with x | ⟨hkD, c, h1, h2⟩
+    · obtain ⟨e, h3, h4⟩ := h.owned m k x
+      have : k ∉ D := by
+        intro hkD
+        obtain ⟨e', h5, h6⟩ := h.owned n k (hD k hkD)
+        rw [h3] at h5; cases h5; exact hm (h4.symm.trans h6)
+      exact ⟨e, by rw [(hout k this).1]; exact h3, h4⟩
+    · exact ⟨c, by rw [(hin k hkD).1]; exact h1, h2⟩
+  · intro k e hk he
+    rw [(hin k hk).1] at he
+    have hc : e ∈ w0 k := List.mem_of_mem_head? he
+    exact ⟨notn k hk e hc, (hvm k e.desc.name).2 (Or.inr ⟨hk, e, he, rfl⟩)⟩
+  · intro k hk; exact (hout k hk).1
+  · intro m k hk; exact (hvm k m).2 (Or.inl hk)
+  · refine relLoop_nodup (n := n) h.nodup ?_ hDn notn
+    intro x hx m hm hxm
+    obtain ⟨e, h1, h2⟩ := h.owned m x hxm
+    obtain ⟨e', h3, h4⟩ := h.owned n x (hD x hx)
+    rw [h1] at h3; cases h3; exact hm (h2.symm.trans h4)
+
+
+theorem Astep_r1 {svc : Bool} {a a' : A} {i : Instr} (h : a.step svc i = some a') (hi : i ≠ .sRemove)
+    (hs : a.sr = true → a.cl = true) (hc : a'.cl = true) (hr : a'.rr = true ∨ a'.sr = true) :
+    (a.cl = true ∧ (a.rr = true ∨ a.sr = true)) ∨ svc = false := by
+  cases i <;> simp only [A.step] at h <;> (try split at h) <;> (try cases h) <;>
+    (try simp_all [A.tablesClean]) <;> (cases svc <;> simp_all)
+
+theorem skipA_rr (i : Instr) (a : A) : (skipA i a).rr = a.rr := by
+  cases i <;> simp only [skipA] <;> (try split) <;> simp_all
+
 theorem svc_step {P : Progs} {s s' : State} {t : Tid} {th : Thread} {i : Instr} {rest : List Instr}
-    (hinv : Inv P s) (h : SvcInv s)
-    (ht : s.threads t = some th) (hc : th.code = i :: rest) (hs : step P s (.tau t) = some s') : SvcInv s' := by
+    (hinv : Inv P s) (hfl : ∀ t th, s.threads t = some th → FOK th) (h : SvcInv P s)
+    (ht : s.threads t = some th) (hc : th.code = i :: rest) (hs : step P s (.tau t) = some s') : SvcInv P s' := by
   obtain ⟨th', hth, hop, hrel⟩ := step_flags hinv ht hc hs
   have hd : th'.desc = th.desc := by simp [Thread.desc, hop]
   have hw : th'.w = th.w := by simp [Thread.w, hop]
   have hth' : s'.threads t = some th' := by rw [hth]; simp
-  -- while `t` holds the table mutex no other thread is in the middle of an update
+  have i0 := hinv.th t th ht
   have nomid : th.a.ht = true → ∀ t0 th0, t0 ≠ t → s.threads t0 = some th0 → th0.a.mid = true → False := by
     intro hh t0 th0 ne h0 hm
     have e1 := (hinv.th t0 th0 h0).ht ((hinv.th t0 th0 h0).mid hm)
-    have e2 := (hinv.th t th ht).ht hh
+    have e2 := i0.ht hh
     rw [e1] at e2; cases e2; exact ne rfl
-  rcases step_routes ht hc hs with ⟨hr, hv, hsk3⟩ | ⟨rfl, hsk, hv, hr, th'', h1, hp⟩ | ⟨rfl, hsk, hr, hv⟩ |
-      ⟨rfl, hsk, wt, hwt, hr, hv⟩
+  have hws := step_wset ht hc hs
+  -- names of existing watchers never change
+  have names : ∀ w n, nameOf s w = some n → nameOf s' w = some n := by
+    intro w n hn
+    rcases hws with ⟨_, x, _⟩ | ⟨_, _, _, _, x⟩ | ⟨_, _, _, _, _, x⟩
+    · rw [x]; exact hn
+    · rw [x]
+      have : w ≠ s.nextW := by
+        intro e; subst e; simp [nameOf, hinv.fresh s.nextW (Nat.le_refl _)] at hn
+      simp [this, hn]
+    · rw [x]; exact hn
+  rcases step_routes ht hc hs with ⟨hr, hv, hwt, hsk3⟩ | ⟨rfl, hsk, hv, hr, hwt, th'', h1, hp⟩ |
+      ⟨rfl, hsk, q, hq, hr, hwt, hv⟩ | ⟨rfl, hsk, wt, q, hwat, hq, hr, hv, hwt⟩
   · -- the service tables do not change
     have hflags : th'.a.mid = th.a.mid ∧ th'.present = th.present := by
       rcases hrel with ⟨_, _, ha, hp⟩ | ⟨_, _, ha, hp, _⟩ | ⟨hsk, _, ha, hp⟩
@@ -796,9 +1221,44 @@ theorem svc_step {P : Progs} {s s' : State} {t : Tid} {th : Thread} {i : Instr} 
         rcases hp with hp | hp
         · exact hp
         · exact absurd hp n1
-    refine ⟨?_, ?_, ?_, ?_⟩
-    · intro k e he; rw [hr] at he; exact h.keyIn k e he
+    have r1flag : th'.a.cl = true → (th'.a.rr = true ∨ th'.a.sr = true) →
+        (th.a.cl = true ∧ (th.a.rr = true ∨ th.a.sr = true)) ∨ P.svc = false := by
+      intro c1 c2
+      rcases hrel with ⟨_, _, ha, _⟩ | ⟨_, _, ha, _⟩ | ⟨hsk, _, ha, _⟩
+      · left
+        obtain ⟨_, _, p3, _, p5, _⟩ := skipA_flags i th.a
+        rw [ha, p5] at c1; rw [ha, p3, skipA_rr] at c2; exact ⟨c1, c2⟩
+      · left; rw [ha] at c1 c2; exact ⟨c1, c2⟩
+      · have n3 : i ≠ .sRemove := fun e => by have := hsk3 (Or.inr (Or.inr e)); rw [hsk] at this; cases this
+        exact Astep_r1 ha n3 (hfl t th ht).2.2.1 c1 c2
+    refine ⟨?_, ?_, ?_, ?_, ?_, ?_, ?_, ?_, ?_, ?_, ?_⟩
+    · intro k e he; rw [hr, hwt] at he; exact h.keyIn k e he
+    · intro k e he; rw [hr, hwt] at he; exact names _ _ (h.ownN k e he)
     · intro n k hk; rw [hv] at hk; rw [hr]; exact h.owned n k hk
+    · intro k e he
+      rw [hr] at he; rw [hv]
+      rcases h.cover k e he with x | ⟨t0, th0, h0, m0, d0, p0⟩
+      · left; exact x
+      · right
+        by_cases e0 : t0 = t
+        · subst e0; rw [ht] at h0; cases h0
+          exact ⟨t0, th', hth', hflags.1 ▸ m0, hd ▸ d0, hflags.2 ▸ p0⟩
+        · exact ⟨t0, th0, by rw [hth]; simp [upd, e0]; exact h0, m0, d0, p0⟩
+    · intro k c hc'; rw [hwt] at hc'; rw [hr]; exact h.wother k c hc'
+    · intro k; rw [hwt]; exact h.wdist k
+    · intro n; rw [hv]; exact h.nodup n
+    · intro t0 th0 h0 c1 c2 k e he
+      rw [hr, hwt] at he
+      rw [hth] at h0
+      rcases upd_some_cases h0 with ⟨rfl, rfl⟩ | ⟨ne, h0'⟩
+      · rw [hw]
+        rcases r1flag c1 c2 with ⟨x1, x2⟩ | x
+        · exact h.r1 t0 th ht x1 x2 k e he
+        · obtain ⟨k1, k2⟩ := h.kind x
+          rcases he with he | he
+          · rw [k1 k] at he; cases he
+          · rw [k2 k] at he; cases he
+      · exact h.r1 t0 th0 h0' c1 c2 k e he
     · intro t0 th0 h0 hm
       rw [hth] at h0; rw [hv]
       rcases upd_some_cases h0 with ⟨rfl, rfl⟩ | ⟨ne, h0'⟩
@@ -809,36 +1269,90 @@ theorem svc_step {P : Progs} {s s' : State} {t : Tid} {th : Thread} {i : Instr} 
       rcases upd_some_cases h0 with ⟨rfl, rfl⟩ | ⟨ne, h0'⟩
       · rw [hd, hflags.2]; exact h.midOwn t0 th ht (hflags.1 ▸ hm)
       · exact h.midOwn t0 th0 h0' hm
+    · intro hsv; rw [hr, hwt]; exact h.kind hsv
   · -- add phase
     rw [hth'] at h1; cases h1
-    have ha : th.a.ht = true ∧ th.a.mid = false := by
+    have ha : th.a.ht = true ∧ th.a.mid = false ∧ th.a.chk = true ∧ th.a.nc = true ∧ P.svc = true ∧
+        th'.a = { th.a with mid := true } := by
       rcases hrel with ⟨x, _⟩ | ⟨_, _, _, _, _, hi⟩ | ⟨_, _, ha, _⟩
       · rw [hsk] at x; cases x
       · rcases hi with hi | hi | hi <;> cases hi
       · simp only [A.step] at ha; split at ha
         · rename_i hx; simp only [Bool.and_eq_true, Bool.not_eq_true'] at hx
-          exact ⟨hx.1.1.1.1.2, hx.2⟩
+          exact ⟨hx.1.1.1.1.2, hx.2, hx.1.1.1.2, hx.1.1.2, hx.1.2, (Option.some.inj ha).symm⟩
         · cases ha
-    refine ⟨?_, ?_, ?_, ?_⟩
+    obtain ⟨hht, hmid, hchk, hnc, hsvc, ha⟩ := ha
+    have hopen : closedOf s th.w = false := (i0.chk hchk).2
+    have hname : nameOf s th.w = some th.desc.name := i0.nc hnc
+    -- where the entries of the new tables come from
+    have origin : ∀ k e, (s'.routes k = some e ∨ e ∈ s'.waiting k) →
+        (s.routes k = some e ∨ e ∈ s.waiting k) ∨ (e = ⟨th.w, th.desc⟩ ∧ k ∈ th.desc.svcs) := by
+      intro k e he
+      rcases he with he | he
+      · rw [hr] at he
+        rcases svcAdd_some he with x | ⟨x, hk⟩
+        · left; left; exact x
+        · right; refine ⟨x, ?_⟩
+          rcases svcAdd_sub _ _ _ _ hk with y | y
+          · cases y
+          · exact y
+      · rw [hwt] at he
+        rcases svcClaim_mem he with x | ⟨x, hk, _⟩
+        · left; right; exact x
+        · right; exact ⟨x, hk⟩
+    refine ⟨?_, ?_, ?_, ?_, ?_, ?_, ?_, ?_, ?_, ?_, ?_⟩
     · intro k e he
-      rw [hr] at he
-      rcases svcAdd_some he with x | ⟨rfl, hk⟩
+      rcases origin k e he with x | ⟨rfl, x⟩
       · exact h.keyIn k e x
-      · rcases svcAdd_sub _ _ _ _ hk with x | x
-        · cases x
-        · exact x
+      · exact x
+    · intro k e he
+      rcases origin k e he with x | ⟨rfl, _⟩
+      · exact names _ _ (h.ownN k e x)
+      · exact names _ _ hname
     · intro n k hk
       rw [hv] at hk
       obtain ⟨e, h1, h2⟩ := h.owned n k hk
       obtain ⟨e', h3, h4⟩ := svcAdd_keeps_name (ss := P.storeSame) (x := ⟨th.w, th.desc⟩) th.desc.svcs s.routes [] k e h1
       exact ⟨e', by rw [hr]; exact h3, h4.trans h2⟩
+    · intro k e he
+      rw [hr] at he; rw [hv]
+      rcases svcAdd_some he with x | ⟨rfl, hk⟩
+      · rcases h.cover k e x with y | ⟨t0, th0, h0, m0, d0, p0⟩
+        · left; exact y
+        · by_cases e0 : t0 = t
+          · subst e0; rw [ht] at h0; cases h0; rw [hmid] at m0; cases m0
+          · exact (nomid hht t0 th0 e0 h0 m0).elim
+      · right; exact ⟨t, th', hth', by rw [ha], by rw [hd], by rw [hp]; exact hk⟩
+    · intro k c hc'
+      rw [hwt] at hc'; rw [hr]
+      rcases svcClaim_mem hc' with x | ⟨rfl, _, old, ho, hne⟩
+      · obtain ⟨e0, h1, h2⟩ := h.wother k c x
+        obtain ⟨e', h3, h4⟩ := svcAdd_keeps_name (ss := P.storeSame) (x := ⟨th.w, th.desc⟩) th.desc.svcs s.routes [] k e0 h1
+        exact ⟨e', h3, by rw [h4]; exact h2⟩
+      · obtain ⟨e', h3, h4⟩ := svcAdd_keeps_name (ss := P.storeSame) (x := ⟨th.w, th.desc⟩) th.desc.svcs s.routes [] k old ho
+        exact ⟨e', h3, by rw [h4]; exact hne⟩
+    · intro k; rw [hwt]; exact svcClaim_distinct _ h.wdist k
+    · intro n; rw [hv]; exact h.nodup n
+    · intro t0 th0 h0 c1 c2 k e he
+      rw [hth] at h0
+      have key : ∀ thx, s.threads t0 = some thx → thx.a.cl = true → (thx.a.rr = true ∨ thx.a.sr = true) → e.owner ≠ thx.w := by
+        intro thx hx d1 d2
+        rcases origin k e he with x | ⟨rfl, _⟩
+        · exact h.r1 t0 thx hx d1 d2 k e x
+        · intro e1
+          have := (hinv.th t0 thx hx).cl d1
+          rw [← e1] at this
+          simp only at this; rw [hopen] at this; cases this
+      rcases upd_some_cases h0 with ⟨rfl, rfl⟩ | ⟨ne, h0'⟩
+      · rw [hw]; rw [ha] at c1 c2; exact key th ht c1 c2
+      · exact key th0 h0' c1 c2
     · intro t0 th0 h0 hm k hk hks
       rw [hth] at h0
       rcases upd_some_cases h0 with ⟨rfl, rfl⟩ | ⟨ne, h0'⟩
       · rw [hp]; rw [hv, hd] at hk; rw [hd] at hks
         obtain ⟨e, h1, h2⟩ := h.owned _ k hk
         exact svcAdd_present _ _ _ _ hks ⟨e, h1, h2⟩
-      · exact (nomid ha.1 t0 th0 ne h0' hm).elim
+      · exact (nomid hht t0 th0 ne h0' hm).elim
     · intro t0 th0 h0 hm k hk
       rw [hth] at h0
       rcases upd_some_cases h0 with ⟨rfl, rfl⟩ | ⟨ne, h0'⟩
@@ -846,37 +1360,83 @@ theorem svc_step {P : Progs} {s s' : State} {t : Tid} {th : Thread} {i : Instr} 
         rcases svcAdd_present_owned _ _ _ _ hk with x | x
         · cases x
         · exact x
-      · exact (nomid ha.1 t0 th0 ne h0' hm).elim
-  · -- delete phase
-    have ha : th.a.ht = true ∧ th.a.mid = true ∧ th'.a.mid = false := by
+      · exact (nomid hht t0 th0 ne h0' hm).elim
+    · intro hsv; rw [hsvc] at hsv; cases hsv
+  · -- delete phase: drop own unlisted claims, release the dropped keys, record the new key list
+    have ha : th.a.ht = true ∧ th.a.mid = true ∧ th'.a = { th.a with mid := false } := by
       rcases hrel with ⟨x, _⟩ | ⟨_, _, _, _, _, hi⟩ | ⟨_, _, ha, _⟩
       · rw [hsk] at x; cases x
       · rcases hi with hi | hi | hi <;> cases hi
       · simp only [A.step] at ha; split at ha
         · rename_i hx; simp only [Bool.and_eq_true] at hx
-          have := (Option.some.inj ha).symm
-          exact ⟨hx.1, hx.2, by rw [this]⟩
+          exact ⟨hx.1, hx.2, (Option.some.inj ha).symm⟩
         · cases ha
-    obtain ⟨hht, hmid, hmid'⟩ := ha
-    have notDel : ∀ k, k ∈ th.present → k ∉ (s.svcRoutes th.desc.name).filter (fun k => !th.present.contains k) := by
-      intro k hk hx
-      have := (List.mem_filter.1 hx).2
-      simp [hk] at this
-    refine ⟨?_, ?_, ?_, ?_⟩
-    · intro k e he; rw [hr] at he; exact h.keyIn k e (svcDelete_some.1 he).1
+    obtain ⟨hht, hmid, ha⟩ := ha
+    have hmid' : th'.a.mid = false := by rw [ha]
+    have hw0 : ∀ k, (if th.desc.svcs.contains k then s.waiting k else dropClaim (s.waiting k) th.desc.name).Sublist (s.waiting k) := by
+      intro k; split
+      · exact List.Sublist.refl _
+      · exact dropClaim_sublist _ _
+    have hD : ∀ k ∈ (s.svcRoutes th.desc.name).filter (fun k => !th.present.contains k), k ∈ s.svcRoutes th.desc.name :=
+      fun k hk => (List.mem_filter.1 hk).1
+    have hDn := (h.nodup th.desc.name).filter (fun k => !th.present.contains k)
+    obtain ⟨f1, f2, f3, f4, f5, f6, f7, f8⟩ := rel_facts h th.desc.name _ _ hw0 hD hDn
+    rw [← hq] at f1 f2 f3 f4 f5 f6 f7 f8
+    have inD : ∀ k, k ∈ s.svcRoutes th.desc.name → k ∉ th.present →
+        k ∈ (s.svcRoutes th.desc.name).filter (fun k => !th.present.contains k) := by
+      intro k h1 h2; exact List.mem_filter.2 ⟨h1, by simpa using h2⟩
+    have notD : ∀ k, k ∈ th.present → k ∉ (s.svcRoutes th.desc.name).filter (fun k => !th.present.contains k) := by
+      intro k h1 h2; have := (List.mem_filter.1 h2).2; simp [h1] at this
+    refine ⟨?_, ?_, ?_, ?_, ?_, ?_, ?_, ?_, ?_, ?_, ?_⟩
+    · intro k e he; rw [hr, hwt] at he; exact h.keyIn k e (f1 k e he)
+    · intro k e he; rw [hr, hwt] at he; exact names _ _ (h.ownN k e (f1 k e he))
     · intro n k hk
       rw [hv] at hk; rw [hr]
       by_cases e : n = th.desc.name
       · subst e
         simp only [upd_same] at hk
-        obtain ⟨e, h1, h2⟩ := h.midOwn t th ht hmid k hk
-        exact ⟨e, svcDelete_some.2 ⟨h1, notDel k hk⟩, h2⟩
+        have hk' := mem_dedup.1 hk
+        obtain ⟨e, h1, h2⟩ := h.midOwn t th ht hmid k hk'
+        exact ⟨e, by rw [f6 k (notD k hk')]; exact h1, h2⟩
       · rw [upd_other _ _ _ _ e] at hk
-        obtain ⟨e1, h1, h2⟩ := h.owned n k hk
-        refine ⟨e1, svcDelete_some.2 ⟨h1, ?_⟩, h2⟩
-        intro hx
-        obtain ⟨e2, h3, h4⟩ := h.owned _ k (List.mem_filter.1 hx).1
-        rw [h1] at h3; cases h3; exact e (h2.symm.trans h4)
+        exact f4 n k e hk
+    · intro k e he
+      rw [hr] at he; rw [hv]
+      left
+      by_cases hk : k ∈ (s.svcRoutes th.desc.name).filter (fun k => !th.present.contains k)
+      · obtain ⟨g1, g2⟩ := f5 k e hk he
+        rw [upd_other _ _ _ _ g1]; exact g2
+      · rw [f6 k hk] at he
+        by_cases hn : e.desc.name = th.desc.name
+        · rw [hn]; simp only [upd_same]
+          apply mem_dedup.2
+          rcases h.cover k e he with x | ⟨t0, th0, h0, m0, d0, p0⟩
+          · rw [hn] at x
+            cases hx : decide (k ∈ th.present) with
+            | true => exact of_decide_eq_true hx
+            | false => exact absurd (inD k x (of_decide_eq_false hx)) hk
+          · by_cases e0 : t0 = t
+            · subst e0; rw [ht] at h0; cases h0; exact p0
+            · exact (nomid hht t0 th0 e0 h0 m0).elim
+        · rw [upd_other _ _ _ _ hn]
+          rcases h.cover k e he with x | ⟨t0, th0, h0, m0, d0, p0⟩
+          · exact f7 _ k x
+          · by_cases e0 : t0 = t
+            · subst e0; rw [ht] at h0; cases h0; exact absurd d0.symm hn
+            · exact (nomid hht t0 th0 e0 h0 m0).elim
+    · intro k c hc'; rw [hwt] at hc'; rw [hr]; exact f2 k c hc'
+    · intro k; rw [hwt]; exact (h.wdist k).sublist (f3 k)
+    · intro n
+      rw [hv]
+      by_cases e : n = th.desc.name
+      · subst e; simp only [upd_same]; exact nodup_dedup _
+      · rw [upd_other _ _ _ _ e]; exact f8 n
+    · intro t0 th0 h0 c1 c2 k e he
+      rw [hr, hwt] at he
+      rw [hth] at h0
+      rcases upd_some_cases h0 with ⟨rfl, rfl⟩ | ⟨ne, h0'⟩
+      · rw [hw]; rw [ha] at c1 c2; exact h.r1 t0 th ht c1 c2 k e (f1 k e he)
+      · exact h.r1 t0 th0 h0' c1 c2 k e (f1 k e he)
     · intro t0 th0 h0 hm
       rw [hth] at h0
       rcases upd_some_cases h0 with ⟨rfl, rfl⟩ | ⟨ne, h0'⟩
@@ -887,51 +1447,139 @@ theorem svc_step {P : Progs} {s s' : State} {t : Tid} {th : Thread} {i : Instr} 
       rcases upd_some_cases h0 with ⟨rfl, rfl⟩ | ⟨ne, h0'⟩
       · rw [hmid'] at hm; cases hm
       · exact (nomid hht t0 th0 ne h0' hm).elim
-  · -- removeTarget
-    have ha : th.a.ht = true ∧ th'.a.mid = false := by
+    · intro hsv
+      obtain ⟨k1, k2⟩ := h.kind hsv
+      refine ⟨?_, ?_⟩
+      · intro k
+        cases hx : s'.routes k with
+        | none => rfl
+        | some e =>
+          rw [hr] at hx
+          rcases f1 k e (Or.inl hx) with y | y
+          · rw [k1 k] at y; cases y
+          · rw [k2 k] at y; cases y
+      · intro k
+        rw [hwt]
+        have := f3 k
+        rw [k2 k] at this
+        exact List.eq_nil_of_sublist_nil this
+  · -- removeTarget: release everything the target owns, forget its key list and its claims
+    have ha : th.a.ht = true ∧ th.a.mid = false ∧ th'.a = { th.a with rr := true } := by
       rcases hrel with ⟨x, _⟩ | ⟨_, _, _, _, _, hi⟩ | ⟨_, _, ha, _⟩
       · rw [hsk] at x; cases x
       · rcases hi with hi | hi | hi <;> cases hi
       · simp only [A.step] at ha; split at ha
         · rename_i hx; simp only [Bool.and_eq_true, Bool.not_eq_true'] at hx
-          have := (Option.some.inj ha).symm
-          exact ⟨hx.1, by rw [this]; exact hx.2⟩
+          exact ⟨hx.1, hx.2, (Option.some.inj ha).symm⟩
         · cases ha
-    obtain ⟨hht, hmid'⟩ := ha
-    refine ⟨?_, ?_, ?_, ?_⟩
-    · intro k e he; rw [hr] at he; exact h.keyIn k e (svcDelete_some.1 he).1
+    obtain ⟨hht, hmid, ha⟩ := ha
+    have hmid' : th'.a.mid = false := by rw [ha]; exact hmid
+    have hnameW : nameOf s th.w = some wt.name := by simp [nameOf, hwat]
+    obtain ⟨f1, f2, f3, f4, f5, f6, f7, f8⟩ := rel_facts h wt.name (s.svcRoutes wt.name) s.waiting
+      (fun k => List.Sublist.refl _) (fun k hk => hk) (h.nodup wt.name)
+    rw [← hq] at f1 f2 f3 f4 f5 f6 f7 f8
+    have noMid : ∀ t0 th0, s.threads t0 = some th0 → th0.a.mid = true → False := by
+      intro t0 th0 h0 m0
+      by_cases e0 : t0 = t
+      · subst e0; rw [ht] at h0; cases h0; rw [hmid] at m0; cases m0
+      · exact nomid hht t0 th0 e0 h0 m0
+    -- after the loop no route belongs to the closing name any more
+    have gone : ∀ k e, q.r k = some e → e.desc.name ≠ wt.name := by
+      intro k e he
+      by_cases hk : k ∈ s.svcRoutes wt.name
+      · exact (f5 k e hk he).1
+      · rw [f6 k hk] at he
+        intro hn
+        rcases h.cover k e he with x | ⟨t0, th0, h0, m0, _⟩
+        · rw [hn] at x; exact hk x
+        · exact noMid t0 th0 h0 m0
+    have origin : ∀ k e, (s'.routes k = some e ∨ e ∈ s'.waiting k) → (s.routes k = some e ∨ e ∈ s.waiting k) := by
+      intro k e he
+      rw [hr, hwt] at he
+      rcases he with he | he
+      · exact f1 k e (Or.inl he)
+      · exact f1 k e (Or.inr (mem_dropClaim he))
+    refine ⟨?_, ?_, ?_, ?_, ?_, ?_, ?_, ?_, ?_, ?_, ?_⟩
+    · intro k e he; exact h.keyIn k e (origin k e he)
+    · intro k e he; exact names _ _ (h.ownN k e (origin k e he))
     · intro n k hk
       rw [hv] at hk; rw [hr]
       by_cases e : n = wt.name
       · subst e; simp only [upd_same] at hk; cases hk
-      · rw [upd_other _ _ _ _ e] at hk
-        obtain ⟨e1, h1, h2⟩ := h.owned n k hk
-        refine ⟨e1, svcDelete_some.2 ⟨h1, ?_⟩, h2⟩
-        intro hx
-        obtain ⟨e2, h3, h4⟩ := h.owned _ k hx
-        rw [h1] at h3; cases h3; exact e (h2.symm.trans h4)
+      · rw [upd_other _ _ _ _ e] at hk; exact f4 n k e hk
+    · intro k e he
+      rw [hr] at he; rw [hv]
+      left
+      have hne := gone k e he
+      rw [upd_other _ _ _ _ hne]
+      by_cases hk : k ∈ s.svcRoutes wt.name
+      · exact (f5 k e hk he).2
+      · rw [f6 k hk] at he
+        rcases h.cover k e he with x | ⟨t0, th0, h0, m0, _⟩
+        · exact f7 _ k x
+        · exact (noMid t0 th0 h0 m0).elim
+    · intro k c hc'
+      rw [hwt] at hc'; rw [hr]
+      exact f2 k c (mem_dropClaim hc')
+    · intro k; rw [hwt]; exact ((h.wdist k).sublist (f3 k)).sublist (dropClaim_sublist _ _)
+    · intro n
+      rw [hv]
+      by_cases e : n = wt.name
+      · subst e; simp only [upd_same]; exact List.nodup_nil
+      · rw [upd_other _ _ _ _ e]; exact f8 n
+    · intro t0 th0 h0 c1 c2 k e he
+      rw [hth] at h0
+      rcases upd_some_cases h0 with ⟨rfl, rfl⟩ | ⟨ne, h0'⟩
+      · rw [hw]
+        intro hown
+        have hn : e.desc.name = wt.name := by
+          have := h.ownN k e (origin k e he)
+          rw [hown, hnameW] at this
+          exact (Option.some.inj this).symm
+        rw [hr, hwt] at he
+        rcases he with he | he
+        · exact gone k e he hn
+        · exact dropClaim_ne ((h.wdist k).sublist (f3 k)) he hn
+      · exact h.r1 t0 th0 h0' c1 c2 k e (origin k e he)
     · intro t0 th0 h0 hm
       rw [hth] at h0
       rcases upd_some_cases h0 with ⟨rfl, rfl⟩ | ⟨ne, h0'⟩
       · rw [hmid'] at hm; cases hm
-      · exact (nomid hht t0 th0 ne h0' hm).elim
+      · exact (noMid t0 th0 h0' hm).elim
     · intro t0 th0 h0 hm
       rw [hth] at h0
       rcases upd_some_cases h0 with ⟨rfl, rfl⟩ | ⟨ne, h0'⟩
       · rw [hmid'] at hm; cases hm
-      · exact (nomid hht t0 th0 ne h0' hm).elim
+      · exact (noMid t0 th0 h0' hm).elim
+    · intro hsv
+      obtain ⟨k1, k2⟩ := h.kind hsv
+      refine ⟨?_, ?_⟩
+      · intro k
+        cases hx : s'.routes k with
+        | none => rfl
+        | some e =>
+          rcases origin k e (Or.inl hx) with y | y
+          · rw [k1 k] at y; cases y
+          · rw [k2 k] at y; cases y
+      · intro k
+        cases hx : s'.waiting k with
+        | nil => rfl
+        | cons c cs =>
+          rcases origin k c (Or.inr (by rw [hx]; exact List.mem_cons_self)) with y | y
+          · rw [k1 k] at y; cases y
+          · rw [k2 k] at y; cases y
 
 /-! ### the second invariant -/
 
-structure Inv2 (s : State) : Prop where
+structure Inv2 (P : Progs) (s : State) : Prop where
   sync : SyncInv s
   wset : WsetInv s
-  svc : SvcInv s
+  svc : SvcInv P s
 
 theorem inv2_reachable {P : Progs} (hP : P.wf = true) (s : State)
-    (h : GB.LTS.Reachable (step P) init s) : Inv P s ∧ Inv2 s := by
+    (h : GB.LTS.Reachable (step P) init s) : Inv P s ∧ Inv2 P s := by
   induction h with
-  | init => exact ⟨inv_init P, sync_init, wset_init, svc_init⟩
+  | init => exact ⟨inv_init P, sync_init, wset_init, svc_init P⟩
   | @step s s' l _ hs ih =>
     obtain ⟨i1, i2⟩ := ih
     refine ⟨inv_step hP i1 hs, ?_⟩
@@ -952,6 +1600,6 @@ theorem inv2_reachable {P : Progs} (hP : P.wf = true) (s : State)
         | nil => simp [step, hth, hcode] at hs
         | cons i rest =>
           exact ⟨sync_step i1 i2.sync hth hcode hs, wset_step i1 i2.sync.fl i2.wset hth hcode hs,
-            svc_step i1 i2.svc hth hcode hs⟩
+            svc_step i1 i2.sync.fl i2.svc hth hcode hs⟩
 
 end GB.C11
